@@ -19,6 +19,7 @@ import (
 	"time"
 
 	eth2p0 "github.com/attestantio/go-eth2-client/spec/phase0"
+	k1 "github.com/decred/dcrd/dcrec/secp256k1/v4"
 
 	"github.com/obolnetwork/charon/app/eth1wrap"
 	"github.com/obolnetwork/charon/app/k1util"
@@ -571,10 +572,25 @@ var newForTMu sync.Mutex
 
 // buildBase returns the JSON of a valid signed lock and of its definition.
 func buildBase(t *testing.T, rng *rand.Rand, version string) (lockJSON, defJSON []byte, meta baseMeta, eth1 eth1wrap.EthClientRunner, err error) {
+	return buildBaseShape(t, rng, version, nil, nil)
+}
+
+// baseExtra receives the in-memory lock and every secret of a base (for re-signing crafted locks).
+type baseExtra struct {
+	lock     cluster.Lock
+	p2pKeys  []*k1.PrivateKey
+	dvShares [][]tbls.PrivateKey
+}
+
+// buildBaseShape is buildBase with an optional forced (threshold, nodes) shape.
+func buildBaseShape(t *testing.T, rng *rand.Rand, version string, shape *[2]int, extra *baseExtra) (lockJSON, defJSON []byte, meta baseMeta, eth1 eth1wrap.EthClientRunner, err error) {
 	eth1 = noEth1
 	minor := minorOf(version)
 	n := 3 + rng.Intn(3)
 	k := 2 + rng.Intn(n-1)
+	if shape != nil {
+		k, n = shape[0], shape[1]
+	}
 	dv := 2 + rng.Intn(2)
 	if rng.Intn(4) == 0 {
 		dv = 1
@@ -731,6 +747,10 @@ func buildBase(t *testing.T, rng *rand.Rand, version string) (lockJSON, defJSON 
 	defJSON, err = json.Marshal(back.Definition)
 	if err != nil {
 		return nil, nil, meta, eth1, err
+	}
+
+	if extra != nil {
+		extra.lock, extra.p2pKeys, extra.dvShares = lock, p2pKeys, dvShares
 	}
 
 	return lockJSON, defJSON, meta, eth1, nil
